@@ -33,7 +33,8 @@ fn encode_generate_code_request(parsed_files: &[slicec::slice_file::SliceFile]) 
     // We also convert from the AST representation to the Slice representation at this time.
     let mut source_files = Vec::new();
     let mut reference_files = Vec::new();
-    for parsed_file in parsed_files {
+    // Files without a module declaration are necessarily empty; there is nothing to transmit for them.
+    for parsed_file in parsed_files.iter().filter(|file| file.module.is_some()) {
         // Convert the Slice file from AST representation to Slice representation.
         let converted_file = definition_types::SliceFile::from(parsed_file);
         // Determine whether this is a source or reference file and place it accordingly.
